@@ -92,6 +92,13 @@ ROWS = [
  (['C01', 'C23'], 'escaped.ValueError@memory.py:_get_field_offset', F, '20f54037', 'CHAIN "Q",,ALL with a string-valued DEF FN defined escaped as ValueError'),
  (['C01'], 'escaped.AttributeError@program.py:merge', F, '87c27cba', 'CHAIN MERGE of a tokenised file escaped as AttributeError'),
  (['C01'], 'escaped.RecursionError@graphics.py:_draw', F, '0df61812', 'a DRAW substring that executes itself escaped as RecursionError'),
+ (['C01'], 'escaped.UnboundLocalError@files.py:_get_device_param', F, '23162950', 'OPEN "CON" AS 3 escaped as UnboundLocalError'),
+ (['C01'], 'escaped.AttributeError@implementation.py:_input_file', F, 'ddf62a7a', 'OPEN "SCRN:" FOR RANDOM AS #2: INPUT#2,A escaped as AttributeError'),
+ (['C01'], 'escaped.error@display.py:palette_using_', F, 'ea2ac2ec', 'DIM R%(20): PALETTE USING R%(-1) escaped as struct.error'),
+ (['C01'], 'escaped.KeyError@program.py:edit', F, 'e94fe429', "execute('EDIT 10'), execute('NEW'), interact() escaped as KeyError"),
+ (['C01'], 'escaped.ValueError@numbers.py:from_oct', F, '4d9657db', 'PRINT &O1 7 escaped as ValueError'),
+ (['C23', 'C04'], 'reset.soft-math-errors-stay-hard', F, 'b8edb98c', 'after ON ERROR GOTO had been used, RUN/NEW/CLEAR did not restore soft handling: 10 PRINT 1/0:PRINT "after" stopped with Division by zero in 10'),
+ (['C01', 'C33', 'C42'], 'escaped.KeyError@memory.py:get_value_for_varptrstr', F, '8b223888', 'DRAW "X"+CHR$(1)+CHR$(0)+CHR$(0) escaped as KeyError'),
  # open findings (not repaired): identified by bucket key
  (['C24'], 'input.item-after-255-byte-string', O, None, 'WRITE #1,A$,N% with LEN(A$)=255 then INPUT #1,B$,M%: B$ is intact but the item after the 255-byte string is lost (reader stops at 255 characters, GW-BASIC-compatible limit)'),
  (['C25'], 'alias.*', O, None, 'two file numbers open FOR RANDOM on the same file do not see each other\'s records: OPEN "R",1,"A.DAT",4: OPEN "R",2,"a.dat",4: PUT #1,1: GET #2,1 returns NUL bytes (each number has its own buffered stream; an unbuffered stream would break suspend/resume)'),
